@@ -26,6 +26,9 @@ def Vector_head_decorators : List String := []
 /-- the signature of dataiter/vector.py: Vector.head: parameters in order, with the source text of their defaults -/
 def Vector_head_signature : List String := ["self", "n=None"]
 
+/-- the calls of dataiter/vector.py: Vector.head in the order Python makes them along the source text -/
+def Vector_head_call_order : List String := ["min", "np.arange", "self[np.arange(n)].copy"]
+
 /-- dataiter/vector.py: Vector.tail (sha256 of the function source: 98e4021f7e2275cc) -/
 def Vector_tail (truth : Term → Bool) (n_is_None : Bool) (dataiter_DEFAULT_PEEK_ELEMENTS : Int) (self_length : Int) (n : Int) : Out :=
   if n_is_None then
@@ -41,5 +44,8 @@ def Vector_tail_decorators : List String := []
 
 /-- the signature of dataiter/vector.py: Vector.tail: parameters in order, with the source text of their defaults -/
 def Vector_tail_signature : List String := ["self", "n=None"]
+
+/-- the calls of dataiter/vector.py: Vector.tail in the order Python makes them along the source text -/
+def Vector_tail_call_order : List String := ["min", "np.arange", "self[np.arange(self.length - n, self.length)].copy"]
 
 end DI.Gen
